@@ -176,3 +176,17 @@ func rotationResetStress(t *testing.T, k, pickers, extra int) (int, int, string)
 	}
 	return syncs, int(picks), ""
 }
+
+// TestReplayRotationResetStress: regression for the fixed finding C14-rotation-reset-corrupts-the-cursor-map: one fixed
+// stress plan in a child process (against the pre-fix tree: 'fatal error: sync: unlock of unlocked mutex' within 1 s).
+func TestReplayRotationResetStress(t *testing.T) {
+	cmd := exec.Command(os.Args[0], "-test.run", "^TestHelperRotationResetStress$", "-test.timeout", "60s")
+	cmd.Env = append(os.Environ(), "VERIF_C14_STRESS=6,8,1", "VERIF_PARTIAL=")
+	out, err := cmd.CombinedOutput()
+	if text := string(out); err != nil || !strings.Contains(text, "STRESS-OK") {
+		if len(text) > 3000 {
+			text = text[:3000]
+		}
+		t.Fatalf("requests picking endpoints while the server list of their cluster changes crashed or wedged the process (%v)\n%s", err, text)
+	}
+}
